@@ -75,6 +75,8 @@ def global_name(it, name, node=None):
                         return FuncV(other.functions[sym])
             if sym in EXC_BASES:
                 return ClassV(sym, None)
+            if modpart == "functools" and sym == "reduce":
+                return BuiltinV("reduce", b_reduce)
             if modpart == "bisect" and sym in BUILTINS:
                 return BuiltinV(sym, BUILTINS[sym])
             if modpart == "numpy" or modpart.startswith("numpy"):
@@ -500,6 +502,25 @@ def _guarded(guard, inner, universal):
     if isinstance(inner, bool):
         return (True if inner else neg(guard)) if universal else (guard if inner else False)
     return disj(neg(guard), core.to_bool(inner)) if universal else conj(guard, core.to_bool(inner))
+
+
+def b_reduce(it, fn, seq, *initial):
+    """functools.reduce over a sequence of concrete length: the left fold, one application of `fn` per element"""
+    xs = _as_iter(it, seq)
+    if not isinstance(xs, list):
+        raise Unsupported("reduce over a symbolic sequence")
+    xs = list(xs)
+    if initial:
+        acc = initial[0]
+    else:
+        if not xs:
+            if it.definedness and not it.caught_here("TypeError"):
+                it.oblige("defined", "TypeError:reduce-of-empty", False, None, note="TypeError: reduce() of empty iterable with no initial value")
+            raise _Raise("TypeError")
+        acc = xs.pop(0)
+    for x in xs:
+        acc = apply(it, fn, [acc, x], {})
+    return acc
 
 
 def b_max(it, *args, **kw):
